@@ -190,3 +190,262 @@ func init() {
 	}}
 	Register(p)
 }
+
+// ---------------------------------------------------------------------------------------------
+// C06 / C07
+
+var containerEntries = [][]string{
+	gen.CTIFF: {"Decode", "DecodeTiff", "exif2.Parse"},
+	gen.CJPEG: {"Decode", "DecodeJPEG"},
+	gen.CPNG:  {"DecodePng"},
+	gen.CCR3:  {"Decode", "DecodeCR3"},
+	gen.CHEIF: {"Decode", "DecodeHeif"},
+}
+
+var containerType = []imagetype.ImageType{
+	gen.CTIFF: imagetype.ImageTiff,
+	gen.CJPEG: imagetype.ImageJPEG,
+	gen.CPNG:  imagetype.ImagePNG,
+	gen.CCR3:  imagetype.ImageCR3,
+	gen.CHEIF: imagetype.ImageHEIF,
+}
+
+// embedCase is one drawn payload in one container, serialisable in both byte orders with
+// identical layout and surroundings.
+type embedCase struct {
+	rec     *gen.Record
+	kind    int
+	lys     []*gen.Layout // 1 layout, or 3 for CR3 (nil entries = directory absent)
+	emb     *gen.Embedded // built around the little-endian serialisation
+	okLimit bool
+}
+
+func encodeParts(lys []*gen.Layout, big bool) [][]byte {
+	out := make([][]byte, len(lys))
+	for i, ly := range lys {
+		if ly != nil {
+			out[i] = ly.Encode(big).Bytes
+		}
+	}
+	return out
+}
+
+func drawEmbedCase(c *Ctx, g *core.Lane, kind int, rec *gen.Record, opts gen.LayoutOpts, surround bool) *embedCase {
+	ec := &embedCase{rec: rec, kind: kind, okLimit: true}
+	if kind == gen.CCR3 {
+		l1, l2, l4 := gen.BuildSplit(g, rec, opts)
+		ec.lys = []*gen.Layout{l1, l2, l4}
+	} else {
+		ec.lys = []*gen.Layout{gen.BuildTIFF(g, rec, opts)}
+	}
+	for _, ly := range ec.lys {
+		if ly == nil {
+			continue
+		}
+		enc := ly.Encode(false)
+		if enc.MaxPending > 84 || enc.MaxEntries > 128 {
+			ec.okLimit = false
+		}
+		if kind == gen.CJPEG && len(enc.Bytes) > 65000 {
+			ec.okLimit = false
+		}
+	}
+	if !ec.okLimit {
+		c.Inc("probe:over-documented-limits (skipped)")
+		return ec
+	}
+	ec.emb = gen.Embed(g, kind, encodeParts(ec.lys, false), surround)
+	return ec
+}
+
+func (ec *embedCase) file(big bool) []byte {
+	if !big {
+		return ec.emb.Bytes
+	}
+	return ec.emb.Swap(encodeParts(ec.lys, true))
+}
+
+func decodeFile(c *Ctx, e *harness.Entry, file []byte) *harness.Result {
+	harness.Pristine()
+	c.Dev.Budget = 0
+	r := newReader(c.Dev, file, Fault{}, Delivery{})
+	return invoke(c, e, &harness.Env{}, r)
+}
+
+func init() {
+	p := &Prop{
+		ID:    "C06",
+		Level: "exploration",
+		Rule: "cases = seeded (record, layout, byte order, container, surroundings, entry point); non-trivial = the record has >= 3 fields and both decodes returned without error; " +
+			"distinct = distinct run digests (entry points, device counts, canonical results)",
+		QuickSec: 40, ThoroughSec: 480,
+		Assumptions: []string{
+			"verdict is purely relational (container vs bare TIFF, and surroundings vs other surroundings); agreement with the model is only counted",
+			"PNG is decoded through DecodePng only (Decode answers 'metadata not supported' for PNG by design)",
+			"CR3: the same logical record split by directory (IFD0->CMT1, Exif->CMT2, GPS->CMT4)",
+			"surrounding random content is screened so that it contains no TIFF signature",
+		},
+	}
+	opts := gen.LayoutOpts{Foreign: 8, IFD1: true}
+	p.Campaigns = []*Campaign{{
+		Name: "embed", Weight: 1,
+		N: func(tier string, seed uint64) uint64 {
+			if tier == "thorough" {
+				return 3000000
+			}
+			return 250000
+		},
+		Run: func(c *Ctx) {
+			g := c.L("gen")
+			cfg := c.L("cfg")
+			rec := gen.DrawRecord(g, 1500)
+			big := g.Bool()
+			kind := cfg.Intn(5)
+			ref := drawEmbedCase(c, g, gen.CTIFF, rec, opts, false)
+			cand := drawEmbedCase(c, g, kind, rec, opts, true)
+			if !ref.okLimit || !cand.okLimit {
+				return
+			}
+			if kind != gen.CCR3 {
+				// same payload bytes in the container as in the bare TIFF
+				cand = &embedCase{rec: rec, kind: kind, lys: ref.lys, okLimit: true}
+				if kind == gen.CJPEG && len(ref.emb.Bytes) > 65000 {
+					return
+				}
+				cand.emb = gen.Embed(g, kind, encodeParts(ref.lys, false), true)
+			}
+			eRef := harness.EntryByName("Decode")
+			names := containerEntries[kind]
+			e := harness.EntryByName(names[cfg.Intn(len(names))])
+			describeRecord(c, rec, nil)
+			c.Descf("container=%s entry=%s big=%v filelen=%d (reference: bare TIFF via Decode, len=%d)", gen.ContainerNames[kind], e.Name, big, len(cand.emb.Bytes), len(ref.emb.Bytes))
+			if c.Describe && len(cand.emb.Bytes) <= 700 {
+				c.Descf("container hex=%x", cand.file(big))
+			}
+			rr := decodeFile(c, eRef, ref.file(big))
+			rc := decodeFile(c, e, cand.file(big))
+			if c.PlanOnly {
+				return
+			}
+			c.Inc("entry:" + e.Name)
+			c.Inc("container:" + gen.ContainerNames[kind])
+			if rc.Panic != nil || rr.Panic != nil {
+				c.Inc("probe:panic-seen-(C01's subject)")
+				if rc.Panic != nil && rr.Panic == nil {
+					c.Fail("mismatch", e.Name, gen.ContainerNames[kind]+":panic", "container decode panicked, bare TIFF decode did not: "+rc.Panic.Value)
+				}
+				return
+			}
+			skip := map[string]bool{"Exif.ImageType": true}
+			if path, a, b := harness.Diff(rc.Fields, rr.Fields, skip); path != "" {
+				c.Fail("mismatch", e.Name, gen.ContainerNames[kind]+":"+path, fmt.Sprintf("field %s: in %s %s, in bare TIFF %s (errors: %s / %s)", path, gen.ContainerNames[kind], a, b, rc.Err, rr.Err))
+				return
+			}
+			if rc.ErrNil != rr.ErrNil {
+				c.Fail("mismatch", e.Name, gen.ContainerNames[kind]+":error", fmt.Sprintf("error in %s: %s, in bare TIFF: %s", gen.ContainerNames[kind], rc.Err, rr.Err))
+				return
+			}
+			if got, exp := rc.Fields.Get("Exif.ImageType"), wantType(rec, containerType[kind]); got != exp && rc.ErrNil {
+				c.Fail("mismatch", e.Name, gen.ContainerNames[kind]+":Exif.ImageType", fmt.Sprintf("image type %s, want %s", got, exp))
+				return
+			}
+			if path, _, _ := modelDiff(rr, model.ExpectExif(rec)); path != "" {
+				c.Inc("probe:equal_but_both_differ_from_model")
+			}
+			c.NonTrivial = rec.FieldCount() >= 3 && rc.ErrNil && rr.ErrNil
+			// same payload, other surroundings, same container
+			if cfg.Chance(1, 2) {
+				other := &embedCase{rec: rec, kind: kind, lys: cand.lys, okLimit: true}
+				other.emb = gen.Embed(g, kind, encodeParts(cand.lys, false), true)
+				ro := decodeFile(c, e, other.file(big))
+				c.Inc("probe:other-surroundings-compared")
+				if ro.Panic != nil || ro.Canon() != rc.Canon() {
+					path, a, b := harness.Diff(rc.Fields, ro.Fields, nil)
+					c.Fail("mismatch", e.Name, gen.ContainerNames[kind]+":surroundings:"+path, fmt.Sprintf("same payload, different surroundings: %s vs %s (err %s / %s)", a, b, rc.Err, ro.Err))
+					if c.Describe && len(other.emb.Bytes) <= 700 {
+						c.Descf("other container hex=%x", other.file(big))
+					}
+				}
+			}
+		},
+	}}
+	Register(p)
+
+	p = &Prop{
+		ID:    "C07",
+		Level: "exploration",
+		Rule: "cases = seeded (record, layout, container, surroundings, entry point), each encoded twice (II and MM) with identical layout; non-trivial = >= 3 fields and both decodes without error; " +
+			"distinct = distinct run digests",
+		QuickSec: 40, ThoroughSec: 480,
+		Assumptions: []string{
+			"verdict is purely relational (II result vs MM result, value and error)",
+			"both serialisations share every offset, embedded/out-of-line decision and all surrounding bytes",
+		},
+	}
+	p.Campaigns = []*Campaign{{
+		Name: "byteorder", Weight: 1,
+		N: func(tier string, seed uint64) uint64 {
+			if tier == "thorough" {
+				return 3000000
+			}
+			return 250000
+		},
+		Run: func(c *Ctx) {
+			g := c.L("gen")
+			cfg := c.L("cfg")
+			rec := gen.DrawRecord(g, 1500)
+			kind := cfg.Intn(5)
+			o := opts
+			o.Foreign = 12
+			ec := drawEmbedCase(c, g, kind, rec, o, g.Bool())
+			if !ec.okLimit {
+				return
+			}
+			names := containerEntries[kind]
+			e := harness.EntryByName(names[cfg.Intn(len(names))])
+			describeRecord(c, rec, nil)
+			c.Descf("container=%s entry=%s filelen=%d", gen.ContainerNames[kind], e.Name, len(ec.emb.Bytes))
+			fII, fMM := ec.file(false), ec.file(true)
+			if c.Describe && len(fII) <= 700 {
+				c.Descf("II hex=%x", fII)
+				c.Descf("MM hex=%x", fMM)
+			}
+			rII := decodeFile(c, e, fII)
+			rMM := decodeFile(c, e, fMM)
+			if c.PlanOnly {
+				return
+			}
+			c.Inc("entry:" + e.Name)
+			c.Inc("container:" + gen.ContainerNames[kind])
+			// small-slot probes: values living in the 4-byte offset slot
+			for _, ly := range ec.lys {
+				if ly == nil {
+					continue
+				}
+				for _, s := range ly.SlotProbes() {
+					c.Inc("probe:slot:" + s)
+				}
+			}
+			if rII.Panic != nil || rMM.Panic != nil {
+				c.Inc("probe:panic-seen-(C01's subject)")
+				if (rII.Panic == nil) != (rMM.Panic == nil) {
+					c.Fail("mismatch", e.Name, gen.ContainerNames[kind]+":panic", "one byte order panics, the other does not")
+				}
+				return
+			}
+			if rII.Canon() != rMM.Canon() {
+				path, a, b := harness.Diff(rII.Fields, rMM.Fields, nil)
+				if path == "" {
+					path = "error"
+				}
+				c.Fail("mismatch", e.Name, gen.ContainerNames[kind]+":"+path, fmt.Sprintf("%s: II %s, MM %s (errors: %s / %s)", path, a, b, rII.Err, rMM.Err))
+				return
+			}
+			if path, _, _ := modelDiff(rII, model.ExpectExif(rec)); path != "" {
+				c.Inc("probe:equal_but_both_differ_from_model")
+			}
+			c.NonTrivial = rec.FieldCount() >= 3 && rII.ErrNil && rMM.ErrNil
+		},
+	}}
+	Register(p)
+}
